@@ -35,7 +35,12 @@ RULE = ('WhenAll and WhenAny: every n <= 4 (quick) / n <= 5 (thorough) x every s
         'fn returns a value / raises / returns a chain of depth <= 2 (3 thorough), every order of input and chain completions. '
         'Run/RunInline (SafeLink): fn returns or raises, 0..2 hub runs. Whatever a continuation, mapped function or linked '
         'function raises is raised once as each of: an Exception subclass, a BaseException-only subclass, a gevent.Timeout '
-        'subclass, a GreenletExit subclass. '
+        'subclass, a GreenletExit subclass. Audit dimensions (each on the exhaustive n <= 3 histories and sprinkled over the '
+        'random ones): None as a successful value (also through FromValue(None), the shared module-level singleton); a second '
+        'WhenAll/WhenAny instance on the same inputs created before or after (both observed and model-compared); the used inputs '
+        'handed to a second call after the history; completions made from inside a hub callback (a consumer link on input i '
+        'completes input j, chains of two); a Map function that completes levels of the chain it returns inline; a continuation '
+        'that starts another ContinueWith on its own antecedent from inside the callback. '
         'non-trivial = at least one completion is delivered to the combinator; distinct by canonical JSON of (case, observation)')
 TRUSTED = ['gevent 26.x AsyncResult/rawlink/hub callback order as summarised at the top of coq/Model/Async.v (re-checked on every '
            'run by the lock-step comparison with real gevent objects)',
@@ -209,14 +214,23 @@ def _random_multi(r, kind, nmax):
     case['mk'] = 'fromvalue'
   if n > 0 and r.random() < 0.3:               # the same result at several positions (and some results not listed)
     case['ars'] = [r.randrange(n) for _ in range(r.choice([1, 2, 3, n, n + 2, r.randint(1, n + 3)]))]
+  if r.random() < 0.15:                        # None as a successful value
+    case = _nonefy(case, only=[i for i in range(n) if r.random() < 0.5])
+  if 'ars' not in case and r.random() < 0.12:
+    case['twin'] = {'kind': r.choice(['all', 'any']), 'when': r.choice(['before', 'after'])}
+  if r.random() < 0.15:
+    case['ops'] = case['ops'] + ([] if case['ops'] and case['ops'][-1][0] == 'run' else [['run']])
+    case['again'] = True
   if n > 0 and r.random() < 0.12:              # ill-formed: some input completed twice (model comparison only)
     i = r.randrange(n)
     extra = ['c', i, r.choice(['ok', 'err']), r.choice([val(i), tag(i), 55])]
     pos = r.randint(0, len(ops))
     case['ops'] = ops[:pos] + [extra] + ops[pos:] + [['run']]
+    case.pop('mk', None)                       # never complete the shared FromValue(None) singleton a second time
+    case.pop('twin', None)
+    case.pop('again', None)
     if r.random() < 0.3:
       case['pre'] = case['pre'] + [[i, r.choice(['ok', 'err']), 66]]
-      case.pop('mk', None)
   return case
 
 
@@ -362,6 +376,96 @@ def _random_map(r, kmax):
   return case
 
 
+# ---- audit dimensions: None values, second instance, second call, re-entrant completions, inline completion --------
+def _nonefy(case, only=None):
+  """The same case with the successful values (of the inputs in `only`, default all) replaced by None."""
+  def fix(entry, at):
+    entry = list(entry)
+    if entry[at] == 'ok' and (only is None or entry[at - 1] in only):
+      entry[at + 1] = None
+    return entry
+  c = dict(case)
+  k = c['kind']
+  if k in ('all', 'any'):
+    c['pre'] = [fix(p, 1) for p in c['pre']]
+    c['ops'] = [fix(op, 2) if op[0] == 'c' else op for op in c['ops']]
+  elif k == 'unwrap':
+    c['term'] = ['ok', None] if c['term'][0] == 'ok' else c['term']
+  elif k == 'cont':
+    c['pre'] = ['ok', None] if c['pre'] and c['pre'][0] == 'ok' else c['pre']
+    c['ops'] = [['c', 'ok', None] if op[0] == 'c' and op[1] == 'ok' else op for op in c['ops']]
+  elif k == 'map':
+    c['term'] = ['ok', None] if c['term'][0] == 'ok' else c['term']
+    c['pre_in'] = ['ok', None] if c['pre_in'] and c['pre_in'][0] == 'ok' else c['pre_in']
+    c['ops'] = [['in', 'ok', None] if op[0] == 'in' and op[1] == 'ok' else op for op in c['ops']]
+  return c
+
+
+def _n_completions(case):
+  return sum(1 for op in case['ops'] if op[0] == 'c')
+
+
+def _reactive(case, depth):
+  """The 2nd (.. depth+1-th) completion is made by a consumer link from inside the notification of the previous one."""
+  comps = [op for op in case['ops'] if op[0] == 'c']
+  moved = comps[1:1 + depth]
+  react = [[comps[t][1]] + moved[t][1:] for t in range(len(moved))]
+  ops = [op for op in case['ops'] if op not in moved]
+  return dict(case, ops=ops, react=react)
+
+
+def _audit_cases(thorough):
+  out = []
+  base = []
+  for kind in ('all', 'any'):
+    for n in range(0, 4):
+      base += _exhaustive_multi(kind, n)
+  for i, c in enumerate(base):
+    # None as a value (also through FromValue(None), the shared already-complete singleton)
+    if c['n'] and i % 2 == 0:
+      out.append(_nonefy(c, only=[0]))
+      out.append(dict(_nonefy(c), mk='fromvalue'))
+    # a second combinator instance over the same inputs, created before or after
+    for tk in ('all', 'any'):
+      for when in (('before', 'after') if i % 2 == 0 else ('after',)):
+        out.append(dict(c, twin={'kind': tk, 'when': when}))
+    # the used inputs handed to a second call
+    out.append(dict(c, again=True))
+    # completions made from inside a hub callback
+    if _n_completions(c) >= 2:
+      out.append(_reactive(c, 1))
+      if _n_completions(c) >= 3:
+        out.append(dict(_reactive(c, 2), again=True))
+  for kind in ('all', 'any'):
+    for i, c in enumerate(_exhaustive_multi(kind, 4)):
+      if _n_completions(c) >= 2 and i % (2 if thorough else 6) == 0:
+        out.append(_reactive(c, 1 + i % 3))
+    for m in (2, 3):
+      for c in _exhaustive_aliased(kind, m):
+        if c['ops'][-1][0] == 'run':
+          out.append(dict(c, again=True))
+  for i, c in enumerate(_exhaustive_unwrap(2)):
+    if c['term'][0] == 'ok':
+      out.append(_nonefy(c))
+  for i, c in enumerate(_exhaustive_cont()):
+    if well_formed(c):
+      if c.get('xcls', 'exc') in ('exc', 'timeout'):
+        out.append(dict(c, nested=True))            # the continuation starts a ContinueWith on its antecedent
+      if c.get('xcls', 'exc') == 'exc':
+        out.append(_nonefy(c))
+  for i, c in enumerate(_exhaustive_map(2)):
+    if 'xcls' not in c or c['xcls'] == 'base':
+      if i % 2 == 0:
+        out.append(_nonefy(c))
+    lv = [op for op in c['ops'] if op[0] == 'lvl']
+    if c['f'][0] == 'chain' and lv:
+      # fn completes levels of the chain it returns, inline
+      out.append(dict(c, ops=[op for op in c['ops'] if op[0] != 'lvl'], fn_fills=[op[1] for op in lv]))
+      if len(lv) > 1:
+        out.append(dict(c, ops=[op for op in c['ops'] if op != lv[-1]], fn_fills=[lv[-1][1]]))
+  return out
+
+
 def gen_cases(tier, seed):
   thorough = tier != 'quick'
   out = []
@@ -374,6 +478,7 @@ def gen_cases(tier, seed):
   out += _exhaustive_unwrap(4 if thorough else 3)
   out += _exhaustive_cont()
   out += _exhaustive_runfn()
+  out += _audit_cases(thorough)
   out += _exhaustive_map(3 if thorough else 2)
   nrand = 6000 if thorough else 900
   for i in range(nrand):
@@ -427,6 +532,13 @@ def _settle():
   _S['gevent'].idle()
 
 
+NONEV = -1000        # how the Python value None is written for the model (values are otherwise small non-negative ints)
+
+
+def _num(v):
+  return NONEV if v is None else v
+
+
 def _do_complete(ar, how, x):
   if how == 'ok':
     ar.set(x)
@@ -463,15 +575,40 @@ def _run_impl(case):
       if i not in built:
         _do_complete(ins[i], how, x)
     inputs = [ins[r] for r in _ars(case)]       # the same result object may be listed at several positions
-    ret = AR.WhenAll(inputs) if k == 'all' else AR.WhenAny(inputs)
+
+    def make(kind):
+      return AR.WhenAll(inputs) if kind == 'all' else AR.WhenAny(inputs)
+    twin = case.get('twin')                     # a second combinator instance on the same inputs
+    tret = None
+    tobs = []
+    if twin and twin['when'] == 'before':
+      tret = make(twin['kind'])
+    ret = make(k)
+    if twin and twin['when'] != 'before':
+      tret = make(twin['kind'])
+    # re-entrancy: when input i is notified, a consumer link completes input j from inside the hub callback
+    for i, j, how, x in case.get('react', []):
+      ins[i].rawlink(lambda _ar, j=j, how=how, x=x: _do_complete(ins[j], how, x))
     obs.append(_snap(ret))
+    if tret is not None:
+      tobs.append(_snap(tret))
     for op in case['ops']:
       if op[0] == 'run':
         _settle()
       else:
         _do_complete(ins[op[1]], op[2], op[3])
       obs.append(_snap(ret))
-    return {'steps': obs}
+      if tret is not None:
+        tobs.append(_snap(tret))
+    out = {'steps': obs}
+    if tret is not None:
+      out['twin_steps'] = tobs
+    if case.get('again'):                       # the same (now used) inputs handed to a second call
+      ret2 = make(k)
+      first = _snap(ret2)
+      _settle()
+      out['again_steps'] = [first, _snap(ret2)]
+    return out
   if k == 'unwrap':
     d = case['depth']
     L = [AR() for _ in range(d + 1)]
@@ -497,15 +634,29 @@ def _run_impl(case):
     calls = []
     src = AR()
 
-    def fn(ar):
-      calls.append(_snap(ar))
+    inner = {}
+    inner_calls = []
+
+    def behave(ar):
       if ar.exception is not None:
         act, base = spec['err'], ar.exception.tag
       else:
-        act, base = spec['ok'], ar.value
+        act, base = spec['ok'], _num(ar.value)
       if act[0] == 'ret':
         return base + act[1]
       raise _S['XCLS'][case.get('xcls', 'exc')](base + act[1])
+
+    def fn_inner(ar):
+      inner_calls.append(_snap(ar))
+      return behave(ar)
+
+    def fn(ar):
+      calls.append(_snap(ar))
+      if case.get('nested') and not inner:
+        # re-entrancy: the continuation starts another ContinueWith on its own antecedent
+        inner['ar'] = ar.ContinueWith(fn_inner) if case['on_hub'] else ar.ContinueWith(fn_inner, on_hub=False)
+        inner['first'] = [_snap(inner['ar']), list(inner_calls)]
+      return behave(ar)
     if case['pre'] is not None:
       _do_complete(src, case['pre'][0], case['pre'][1])
     ret = src.ContinueWith(fn) if case['on_hub'] else src.ContinueWith(fn, on_hub=False)
@@ -516,7 +667,10 @@ def _run_impl(case):
       else:
         _do_complete(src, op[1], op[2])
       obs.append([_snap(ret), list(calls)])
-    return {'steps': obs}
+    out = {'steps': obs}
+    if inner:
+      out['inner'] = [inner['first'], [_snap(inner['ar']), list(inner_calls)]]
+    return out
   if k == 'map':
     d = case['depth']
     f = case['f']
@@ -533,9 +687,11 @@ def _run_impl(case):
     def fn(v):
       calls.append(_plain(v))
       if f[0] == 'ret':
-        return v + f[1]
+        return _num(v) + f[1]
       if f[0] == 'raise':
-        raise _S['XCLS'][case.get('xcls', 'exc')](v + f[1])
+        raise _S['XCLS'][case.get('xcls', 'exc')](_num(v) + f[1])
+      for j in case.get('fn_fills', []):       # fn itself completes levels of the chain it returns, inline
+        fill(j)
       return L[0]
     for j in case['pre_levels']:
       fill(j)
@@ -602,6 +758,9 @@ def _want(term):
   return [True, True, term[1], None] if term[0] == 'ok' else [True, False, None, term[1]]
 
 
+_UNSET = object()
+
+
 def _ars(case):
   """The input list as indices into the pool of results (default: n distinct results)."""
   return case.get('ars', list(range(case['n'])))
@@ -664,7 +823,7 @@ def _mon_any(case, steps, v):
   later = []           # completions after the call, in order
   flushed = True       # nothing undelivered except the pre-completed inputs' callbacks
   ran = False
-  first_value = None
+  first_value = _UNSET
   for t, (ready, succ, value, exc) in enumerate(steps):
     if t > 0:
       op = case['ops'][t - 1]
@@ -693,10 +852,10 @@ def _mon_any(case, steps, v):
         v.append(('any-not-first-success', 'value %s at %s, the first input to succeed had %s' % (value, where, later_ok[0])))
       if exc is not None:
         v.append(('any-success-and-exception', 'successful result carries exception %s at %s' % (exc, where)))
-      if first_value is not None and value != first_value:
+      if first_value is not _UNSET and value != first_value:
         v.append(('any-value-changed', 'value changed from %s to %s at %s' % (first_value, value, where)))
-      first_value = value if first_value is None else first_value
-    elif first_value is not None:
+      first_value = value if first_value is _UNSET else first_value
+    elif first_value is not _UNSET:
       v.append(('any-success-lost', 'no longer successful at %s' % where))
     if exc is not None:
       if later_ok or ncomplete < n:
@@ -765,7 +924,7 @@ def _mon_cont(case, steps, v):
         v.append(('continue-called-before-completion', 'continuation saw %s at %s, the input is %s' % (calls[0], where, outcome)))
         continue
       act = spec['ok'] if outcome[0] == 'ok' else spec['err']
-      res = ['ok', outcome[1] + act[1]] if act[0] == 'ret' else ['err', outcome[1] + act[1]]
+      res = ['ok', _num(outcome[1]) + act[1]] if act[0] == 'ret' else ['err', _num(outcome[1]) + act[1]]
       if snap != _want(res):
         v.append(('continue-result-not-captured', 'returned result %s at %s, continuation gave %s' % (snap, where, res)))
     else:
@@ -805,9 +964,9 @@ def _mon_map(case, steps, v):
   if inp[0] == 'err':
     depth, term, done0, lv = 0, inp, [], lambda op: None
   elif f[0] == 'ret':
-    depth, term, done0, lv = 0, ['ok', inp[1] + f[1]], [], lambda op: None
+    depth, term, done0, lv = 0, ['ok', _num(inp[1]) + f[1]], [], lambda op: None
   elif f[0] == 'raise':
-    depth, term, done0, lv = 0, ['err', inp[1] + f[1]], [], lambda op: None
+    depth, term, done0, lv = 0, ['err', _num(inp[1]) + f[1]], [], lambda op: None
   else:
     depth, term, done0 = case['depth'] + 1, case['term'], [j + 1 for j in case['pre_levels']]
     lv = lambda op: op[1] + 1 if op[0] == 'lvl' else None
@@ -833,15 +992,52 @@ def _mon_runfn(case, obs, v):
       v.append(('runfn-not-complete', 'fn %s but the result is %s at %s' % ('ran' if ncalls else 'should have run', snap, where)))
 
 
-def monitor(case, obs):
-  v = []
-  if not well_formed(case):
-    return v
+def _expanded(case, obs):
+  """The history as the combinator saw it: completions made from inside hub callbacks (a reacting consumer link,
+  a Map function that completes levels of the chain it returns) written as ordinary completions just before the hub
+  run in which they happen; the observation before that run stands for the unobservable intermediate states."""
   steps = obs['steps']
   k = case['kind']
-  if obs.get('hub_errors'):
-    v.append(('exception-escaped-to-hub', 'gevent reported %s escaping a callback/greenlet; whatever a continuation or '
-              'function raises must be captured in the returned result' % sorted(set(obs['hub_errors']))))
+  if k in ('all', 'any') and case.get('react'):
+    react = dict((i, [j, how, x]) for i, j, how, x in case['react'])
+    ops2, steps2, q = [], [steps[0]], []
+    for t, op in enumerate(case['ops']):
+      if op[0] == 'run':
+        idx = 0
+        while idx < len(q):
+          i = q[idx]
+          idx += 1
+          if i in react:
+            j, how, x = react.pop(i)
+            ops2.append(['c', j, how, x])
+            steps2.append(steps[t])
+            q.append(j)
+        q = []
+      else:
+        q.append(op[1])
+      ops2.append(op)
+      steps2.append(steps[t + 1])
+    return dict(case, ops=ops2), steps2
+  if k == 'map' and case.get('fn_fills') and case['f'][0] == 'chain':
+    inp = case['pre_in']
+    ops2, steps2, fired = [], [steps[0]], False
+    for t, op in enumerate(case['ops']):
+      if op[0] == 'in':
+        inp = [op[1], op[2]]
+      if op[0] == 'run' and not fired and inp is not None:
+        fired = True
+        if inp[0] == 'ok':
+          for j in case['fn_fills']:
+            ops2.append(['lvl', j])
+            steps2.append(steps[t])
+      ops2.append(op)
+      steps2.append(steps[t + 1])
+    return dict(case, ops=ops2), steps2
+  return case, steps
+
+
+def _monitor_one(case, steps, obs, v):
+  k = case['kind']
   if k == 'all':
     _mon_all(case, steps, v)
   elif k == 'any':
@@ -855,6 +1051,53 @@ def monitor(case, obs):
     _mon_map(case, steps, v)
   elif k == 'runfn':
     _mon_runfn(case, obs, v)
+
+
+def _extra_parts(case, obs):
+  """Further combinators observed in the same run, each as a (case, steps) of its own: a twin instance on the same
+  inputs, a second call on the used inputs, a ContinueWith started from inside the continuation."""
+  parts = []
+  k = case['kind']
+  if k in ('all', 'any'):
+    aliased = len(set(_ars(case))) != len(_ars(case))
+    if case.get('twin') and 'twin_steps' in obs and not aliased and not case.get('react'):
+      tc = dict((kk, vv) for kk, vv in case.items() if kk not in ('twin', 'again'))
+      tc['kind'] = case['twin']['kind']
+      parts.append((tc, obs['twin_steps']))
+    if case.get('again') and 'again_steps' in obs and case['ops'] and case['ops'][-1][0] == 'run':
+      c2, _s2 = _expanded(case, obs)
+      done = [list(p) for p in case['pre']] + [op[1:] for op in c2['ops'] if op[0] == 'c']
+      ac = {'kind': k, 'n': case['n'], 'pre': done, 'ops': [['run']]}
+      if 'ars' in case:
+        ac['ars'] = case['ars']
+      parts.append((ac, obs['again_steps']))
+  if k == 'cont' and 'inner' in obs:
+    outcome = case['pre']
+    for op in case['ops']:
+      if op[0] == 'c':
+        outcome = [op[1], op[2]]
+    ic = {'kind': 'cont', 'k': case['k'], 'on_hub': case['on_hub'], 'pre': outcome, 'ops': [['run']], 'xcls': case.get('xcls', 'exc')}
+    parts.append((ic, obs['inner']))
+  return parts
+
+
+def monitor(case, obs):
+  v = []
+  if not well_formed(case):
+    return v
+  case2, steps2 = _expanded(case, obs)
+  if not well_formed(case2):
+    return v
+  if obs.get('hub_errors'):
+    v.append(('exception-escaped-to-hub', 'gevent reported %s escaping a callback/greenlet; whatever a continuation or '
+              'function raises must be captured in the returned result' % sorted(set(obs['hub_errors']))))
+  _monitor_one(case2, steps2, obs, v)
+  for pc, psteps in _extra_parts(case, obs):
+    if well_formed(pc):
+      _monitor_one(pc, psteps, {'steps': psteps}, v)
+  if case.get('nested') and case['kind'] == 'cont' and 'inner' not in obs:
+    if any(calls for _s, calls in obs['steps']):
+      v.append(('continue-nested-missing', 'the continuation ran but the ContinueWith it started was not recorded'))
   seen = set()
   out = []
   for s, m in v:
@@ -878,19 +1121,26 @@ def _oz(x):
   return 'None' if x is None else '(Some %s)' % _z(x)
 
 
+def _zv(x):
+  """A value: the Python value None is written NONEV."""
+  return _z(NONEV) if x is None else _z(x)
+
+
 def _outcome(how, x):
-  return '(Ok %s)' % _z(x) if how == 'ok' else '(Err %s)' % _z(x)
+  return '(Ok %s)' % _zv(x) if how == 'ok' else '(Err %s)' % _z(x)
 
 
 def _obs_z(s):
-  return '(%s, %s, %s, %s)' % (C.blit(s[0]), C.blit(s[1]), _oz(s[2]), _oz(s[3]))
+  # value None of a successful result is the Python value None; of an unsuccessful one "no value"
+  val_ = '(Some %s)' % _zv(s[2]) if (s[1] or s[2] is not None) else 'None'
+  return '(%s, %s, %s, %s)' % (C.blit(s[0]), C.blit(s[1]), val_, _oz(s[3]))
 
 
 def _obs_list(s):
   if s[2] is None:
     val_ = 'None'
   elif isinstance(s[2], list):
-    val_ = '(Some %s)' % C.lst([_oz(x) for x in s[2]])
+    val_ = '(Some %s)' % C.lst(['(Some %s)' % _zv(x) for x in s[2]])
   else:
     val_ = '(Some [Some %s])' % C.zlit(BADZ)
   return '(%s, %s, %s, %s)' % (C.blit(s[0]), C.blit(s[1]), val_, _oz(s[3]))
@@ -911,8 +1161,15 @@ def _kact(a):
 
 
 def to_coq(case, obs):
+  case2, steps2 = _expanded(case, obs)
+  term = _term(case2, steps2, obs)
+  for pc, psteps in _extra_parts(case, obs):
+    term = 'CPair (%s) (%s)' % (term, _term(pc, psteps, {'steps': psteps}))
+  return term
+
+
+def _term(case, steps, obs):
   k = case['kind']
-  steps = obs['steps']
   if k in ('all', 'any'):
     pre = C.lst(['(%s, %s)' % (C.natlit(i), _outcome(how, x)) for i, how, x in case['pre']])
     evs = C.lst([_ev(op) for op in case['ops']])
@@ -940,7 +1197,7 @@ def to_coq(case, obs):
       if op[0] == 'in':
         return '(MIn %s)' % _outcome(op[1], op[2])
       return '(MLevel %s)' % C.natlit(op[1])
-    exp = C.lst(['(%s, %s)' % (_obs_z(s), C.lst([_z(c) for c in calls])) for s, calls in steps])
+    exp = C.lst(['(%s, %s)' % (_obs_z(s), C.lst([_zv(c) for c in calls])) for s, calls in steps])
     return 'CMap %s %s %s %s %s %s' % (fa, _chain(case['depth'], case['term']), pre, C.natlist(case['pre_levels']),
                                        C.lst([mev(op) for op in case['ops']]), exp)
   if k == 'runfn':
@@ -1066,13 +1323,23 @@ def stats(cases, obs):
       relinks += 1
   raised = {}
   aliased = {}
+  dims = {}
   for c in cases:
+    for key, name in (('twin', 'second_instance_on_same_inputs'), ('again', 'second_call_on_used_inputs'),
+                      ('react', 'completion_from_inside_a_hub_callback'), ('nested', 'continuewith_started_inside_continuation'),
+                      ('fn_fills', 'map_function_completes_chain_levels_inline')):
+      if c.get(key):
+        dims[name] = dims.get(name, 0) + 1
+    if '"ok", null' in C.canon([c.get('pre'), c.get('ops'), c.get('term'), c.get('pre_in')]):
+      dims['none_as_a_value'] = dims.get('none_as_a_value', 0) + 1
+    if c.get('mk') == 'fromvalue':
+      dims['inputs_built_with_FromValue'] = dims.get('inputs_built_with_FromValue', 0) + 1
     if 'ars' in c and len(set(c['ars'])) < len(c['ars']):
       aliased[c['kind']] = aliased.get(c['kind'], 0) + 1
     if 'xcls' in c:
       raised[c['xcls']] = raised.get(c['xcls'], 0) + 1
   return {'final_state_distribution': br, 'callback_branches_delivered': cb, 'largest_n_or_depth': nmax,
-          'cases_by_class_of_raised_exception': raised, 'cases_with_a_result_at_several_positions': aliased,
+          'audit_dimensions': dims, 'cases_by_class_of_raised_exception': raised, 'cases_with_a_result_at_several_positions': aliased,
           'histories_ending_with_undelivered_completions': undelivered,
           'histories_with_several_completions_per_hub_run': batched,
           'chain_histories_with_three_or_more_hub_runs': relinks}
